@@ -154,9 +154,122 @@ def operate_semantics(prog: Program, cls_name: str) -> Dict[str, Any]:
     return info
 
 
+def operate_semantics_e3(prog: Program, cls_name: str) -> Dict[str, Any]:
+    """Classify `operate` by interpreting its body on symbolic operands (robust to refactoring)."""
+    from . import algebra as A
+    from .absint import Interp, Num, explore, AbsRaise
+    m = prog.find_method(cls_name, "operate")
+    if m is None or m.cls is None:
+        raise AnalysisError(f"{cls_name}.operate vanished")
+    binary = prog.is_subclass(cls_name, "BinaryExpression")
+    one, two = ("sym", "one"), ("sym", "two")
+    info: Dict[str, Any] = {"op": "unknown", "args": "in-order", "via": "python", "raises": False, "zero_guard": False,
+                            "detail": "", "where": m.where}
+
+    def body(it: Interp):
+        node = it.new_summary(frozenset([cls_name]), "arg")
+        it.hooks["ext:math.isclose"] = lambda it2, path, args, kwargs: it2.sign_query(
+            ("sub", it2.to_term(args[0]), it2.to_term(args[1])), frozenset(["zero"]), "isclose-eq") or it2.atom("within-tolerance")
+        return it.call_function(m, [node, Num(one)] + ([Num(two)] if binary else []), {})
+
+    try:
+        paths = explore(prog, body, {"max_updepth": 0}, max_paths=64)
+    except AnalysisError as e:
+        info["detail"] = f"operate body not interpretable: {e}"
+        return info
+    exts = sorted({e[1] for p in paths for e in p.interp.events if e[0] == "ext"})
+    for e in exts:
+        if e.startswith("numpy."):
+            info["via"] = "numpy:" + e.split(".", 1)[1]
+        elif e.startswith("math."):
+            info["via"] = "math:" + e.split(".", 1)[1]
+    rets = [p for p in paths if p.outcome == "return"]
+    raises = [p for p in paths if p.outcome == "raise"]
+    info["raises"] = bool(raises)
+
+    def strip_int(t):
+        if t[0] == "fn" and t[1] == "int":
+            return strip_int(t[2])
+        if t[0] in ("lit", "sym", "atom"):
+            return t
+        if t[0] == "fn":
+            return ("fn", t[1], strip_int(t[2]))
+        return (t[0],) + tuple(strip_int(x) for x in t[1:])
+
+    def term_of(p):
+        t = p.interp.to_term(p.value)
+        return strip_int(t) if t is not None else None
+
+    def eqv(t, u) -> bool:
+        try:
+            return A.equal_nf(t, u)
+        except Exception:
+            return False
+    if binary:
+        cands = [("add", ("add", one, two)), ("sub", ("sub", one, two)), ("mul", ("mul", one, two)),
+                 ("div", ("div", one, two)), ("pow", ("pow", one, two))]
+        swapped = [("sub", ("sub", two, one)), ("div", ("div", two, one)), ("pow", ("pow", two, one))]
+        if len(rets) == 1 and not raises:
+            t = term_of(rets[0])
+            if t is not None:
+                for op, want in cands:
+                    if eqv(t, want):
+                        info["op"] = op
+                        return info
+                for op, want in swapped:
+                    if eqv(t, want):
+                        info["op"], info["args"] = op, "swapped"
+                        return info
+        # guarded division: NaN exactly on a zero divisor
+        if len(rets) == 2 and not raises:
+            nan = [p for p in rets if term_of(p) == ("atom", "nonfinite:nan")]
+            div = [p for p in rets if term_of(p) is not None and eqv(term_of(p), ("div", one, two))]
+            if len(nan) == 1 and len(div) == 1:
+                key, flip, c = nan[0].interp._canon_signed(two)
+                if c is not None and c == 0:
+                    info["op"], info["zero_guard"] = "div", True
+                    return info
+        # equation: operand when equal, raise otherwise
+        if rets and raises and all(term_of(p) is not None and (eqv(term_of(p), one) or eqv(term_of(p), two)) for p in rets):
+            info["op"] = "eq"
+            info["exc"] = raises[0].exc.exc
+            return info
+    else:
+        if len(rets) == 1 and not raises:
+            t = term_of(rets[0])
+            if t is not None:
+                if eqv(t, ("neg", one)):
+                    info["op"] = "neg"
+                    return info
+                for fn in ("abs", "factorial"):
+                    if t == ("fn", fn, one):
+                        info["op"] = fn
+                        return info
+        if len(rets) == 3 and not raises:
+            vals = set()
+            for p in rets:
+                t = term_of(p)
+                c = A.nf_is_const(A.normalize(t)) if t is not None else None
+                key, flip, cc = p.interp._canon_signed(one)
+                if cc is not None:
+                    s = "zero" if cc == 0 else ("neg" if cc < 0 else "pos")
+                else:
+                    al = p.interp.num_facts.get(key, frozenset())
+                    if flip:
+                        al = frozenset({"neg": "pos", "pos": "neg", "zero": "zero"}[a] for a in al)
+                    s = next(iter(al)) if len(al) == 1 else "?"
+                vals.add((s, c))
+            from fractions import Fraction
+            if vals == {("neg", Fraction(-1)), ("pos", Fraction(1)), ("zero", Fraction(0))}:
+                info["op"] = "sgn"
+                return info
+    info["detail"] = f"operate body not recognised as an operator ({len(rets)} returning / {len(raises)} raising paths)"
+    return info
+
+
 def operator_table(prog: Program) -> Dict[str, Dict[str, Any]]:
     out = {}
     for k in prog.concrete_kinds():
         if prog.is_subclass(k, "BinaryExpression") or prog.is_subclass(k, "UnaryExpression"):
-            out[k] = operate_semantics(prog, k)
+            out[k] = operate_semantics_e3(prog, k)
     return out
